@@ -102,7 +102,7 @@ class CFG:
         # `x = A if <test with a call> else B` (also return / expression statements): the test is a decision of its own -
         # it may consult a stop condition - so it gets decision nodes and each arm its own statement node
         v = getattr(st, "value", None) if isinstance(st, (ast.Assign, ast.AnnAssign, ast.Return, ast.Expr)) else None
-        if isinstance(v, ast.IfExp) and any(isinstance(x, ast.Call) for x in ast.walk(v.test)):
+        if isinstance(v, ast.IfExp) and (any(isinstance(x, ast.Call) for x in ast.walk(v.test)) or (isinstance(st, ast.Return) and any(isinstance(x, ast.Call) for arm in (v.body, v.orelse) for x in ast.walk(arm)))):
             import copy as _copy
 
             t, f = self._cond(v.test, preds, st)
